@@ -606,63 +606,113 @@ def bracket_offsets_inward(chk: Check, rule: str, modules: tuple, floor: int = 1
 
 
 # ------------------------------------------------------------------------------------------------ sibling getters pad the same ends
-def _padding(e: ast.AST):
-    """(elements in front, stored array, elements behind) of an expression that pads a stored 1-D array with end points:
-    np.array([a] + list(self.X) + [b]), np.concatenate(([a], self.X, [b])), np.append(self.X, b) (canonicalised to concatenate), np.hstack / np.r_"""
-    def parts(x):
-        if isinstance(x, ast.BinOp) and isinstance(x.op, ast.Add):
-            l_, r_ = parts(x.left), parts(x.right)
-            return None if l_ is None or r_ is None else l_ + r_
-        if isinstance(x, ast.List):
-            return [("lit", el) for el in x.elts]
-        if isinstance(x, ast.Call) and (dotted(x.func) or "") in ("list", "tuple", "np.asarray", "np.array") and len(x.args) == 1:
-            return parts(x.args[0])
-        if isinstance(x, ast.Attribute):
-            return [("arr", x)]
-        if isinstance(x, ast.Starred):
-            return parts(x.value)
-        return None
+class _PadEval:
+    """evaluates the statements of a getter (endpoints fixed to True) to sequence patterns: a list of "lit" (one added end point) and "arr"
+    (the stored interior array) items.  Understands list displays and `+`, list()/tuple()/np.array()/np.asarray(), np.concatenate / np.hstack /
+    np.append (canonicalised to concatenate) / np.insert(a, 0, v) / np.r_, starred displays, and lists built by .insert(0, v) / .append(v)."""
 
-    ps = None
-    if isinstance(e, ast.Call):
-        d = dotted(e.func) or ""
-        if d in ("np.array", "np.asarray") and e.args:
-            a = e.args[0]
-            if isinstance(a, ast.List) and any(isinstance(el, ast.Starred) for el in a.elts):
-                ps = []
-                for el in a.elts:
-                    q = parts(el) if isinstance(el, ast.Starred) else [("lit", el)]
+    def __init__(self):
+        self.env: dict = {}
+
+    @staticmethod
+    def _scalar(e) -> bool:
+        if isinstance(e, ast.Constant) and isinstance(e.value, (int, float)) and not isinstance(e.value, bool):
+            return True
+        if isinstance(e, ast.UnaryOp) and isinstance(e.op, (ast.USub, ast.UAdd)):
+            return _PadEval._scalar(e.operand)
+        return (dotted(e) or "") in ("np.inf", "numpy.inf", "math.inf", "np.Inf", "np.PINF", "np.NINF") or \
+            (isinstance(e, ast.Call) and (dotted(e.func) or "") == "float" and len(e.args) == 1 and isinstance(e.args[0], ast.Constant))
+
+    def seq(self, e):
+        if isinstance(e, ast.Name):
+            return self.env.get(e.id)
+        if self._scalar(e):
+            return ["lit"]
+        if isinstance(e, (ast.List, ast.Tuple)):
+            out = []
+            for el in e.elts:
+                if isinstance(el, ast.Starred):
+                    q = self.seq(el.value)
                     if q is None:
                         return None
-                    ps += q
-            else:
-                ps = parts(a)
-        elif d in ("np.concatenate", "np.hstack") and e.args and isinstance(e.args[0], (ast.Tuple, ast.List)):
-            ps = []
-            for el in e.args[0].elts:
-                q = parts(el)
-                if q is None:
-                    q = [("lit", el)] if isinstance(el, (ast.Constant, ast.UnaryOp)) else None
-                if q is None:
+                    out += q
+                elif self._scalar(el) or isinstance(el, ast.Name) and self.env.get(el.id) == ["lit"]:
+                    out.append("lit")
+                else:
                     return None
-                ps += q
-    elif isinstance(e, ast.Subscript) and (dotted(e.value) or "") == "np.r_" and isinstance(e.slice, ast.Tuple):
-        ps = []
-        for el in e.slice.elts:
-            ps += [("arr", el)] if isinstance(el, ast.Attribute) else [("lit", el)]
-    if ps is None:
+            return out
+        if isinstance(e, ast.Attribute):
+            b_ = e
+            while isinstance(b_, ast.Attribute):
+                b_ = b_.value
+            return ["arr"] if isinstance(b_, ast.Name) and b_.id == "self" else None
+        if isinstance(e, ast.BinOp) and isinstance(e.op, ast.Add):
+            l_, r_ = self.seq(e.left), self.seq(e.right)
+            return None if l_ is None or r_ is None else l_ + r_
+        if isinstance(e, ast.Subscript) and (dotted(e.value) or "") == "np.r_":
+            return self.seq(ast.Tuple(elts=list(e.slice.elts) if isinstance(e.slice, ast.Tuple) else [e.slice], ctx=ast.Load()))
+        if isinstance(e, ast.Call):
+            d = dotted(e.func) or ""
+            if d in ("list", "tuple", "np.array", "np.asarray", "np.asanyarray", "np.copy") and e.args:
+                return self.seq(e.args[0])
+            if d in ("np.concatenate", "np.hstack") and e.args and isinstance(e.args[0], (ast.Tuple, ast.List)):
+                out = []
+                for el in e.args[0].elts:
+                    q = self.seq(el)
+                    if q is None:
+                        return None
+                    out += q
+                return out
+            if d == "np.insert" and len(e.args) >= 3 and isinstance(e.args[1], ast.Constant) and e.args[1].value == 0:
+                a_, v_ = self.seq(e.args[0]), self.seq(e.args[2])
+                return None if a_ is None or v_ is None else v_ + a_
         return None
-    arrs = [i for i, (k, _) in enumerate(ps) if k == "arr"]
-    if len(arrs) != 1:
-        return None
-    i = arrs[0]
-    return i, ps[i][1], len(ps) - i - 1
+
+    def run(self, body) -> None:
+        for st in body:
+            if isinstance(st, ast.Assign) and len(st.targets) == 1:
+                t, v = st.targets[0], st.value
+                if isinstance(t, ast.Name):
+                    self.env[t.id] = self.seq(v)
+                elif isinstance(t, (ast.Tuple, ast.List)) and isinstance(v, (ast.Tuple, ast.List)) and len(t.elts) == len(v.elts):
+                    vals = [self.seq(x) for x in v.elts]
+                    for tt, vv in zip(t.elts, vals):
+                        if isinstance(tt, ast.Name):
+                            self.env[tt.id] = vv
+                else:
+                    for x in ast.walk(t):
+                        if isinstance(x, ast.Name):
+                            self.env[x.id] = None
+            elif isinstance(st, ast.AnnAssign) and isinstance(st.target, ast.Name) and st.value is not None:
+                self.env[st.target.id] = self.seq(st.value)
+            elif isinstance(st, ast.Expr) and isinstance(st.value, ast.Call) and isinstance(st.value.func, ast.Attribute) and isinstance(st.value.func.value, ast.Name):
+                nm, meth, args = st.value.func.value.id, st.value.func.attr, st.value.args
+                cur = self.env.get(nm)
+                if cur is None:
+                    continue
+                if meth == "append" and len(args) == 1 and self.seq(args[0]) == ["lit"]:
+                    self.env[nm] = cur + ["lit"]
+                elif meth == "insert" and len(args) == 2 and isinstance(args[0], ast.Constant) and args[0].value == 0 and self.seq(args[1]) == ["lit"]:
+                    self.env[nm] = ["lit"] + cur
+                elif meth in ("append", "insert", "extend", "pop", "remove", "clear", "sort", "reverse"):
+                    self.env[nm] = None
+            elif isinstance(st, (ast.If, ast.For, ast.While, ast.Try, ast.With)):
+                # not straight-line: whatever is assigned inside is unknown afterwards (returns inside are read by the caller of run)
+                for x in ast.walk(st):
+                    if isinstance(x, ast.Name) and isinstance(x.ctx, ast.Store):
+                        self.env[x.id] = None
+                    elif isinstance(x, ast.Call) and isinstance(x.func, ast.Attribute) and isinstance(x.func.value, ast.Name) and x.func.value.id in self.env:
+                        self.env[x.func.value.id] = None       # a list that a method is called on inside the branch
+                    elif isinstance(x, (ast.Subscript, ast.Attribute)) and isinstance(x.ctx, ast.Store) and isinstance(x.value, ast.Name) and x.value.id in self.env:
+                        self.env[x.value.id] = None
 
 
 def endpoint_padding_agrees(chk: Check, rule: str, cls_name: str = "grid:Grid", getters=("getCompactCoordinates", "getCoordinates", "getCompactificationDerivatives")) -> None:
     """With endpoints=True the grid's getters return the stored interior arrays padded with the end points.  Coordinates, compact coordinates
     and Jacobians are used together element by element, so for every direction the three getters must pad the same ends (z, pz: both ends;
-    pp: the upper end only -- rho_par = -1 is an ordinary grid point).  Padding the other end keeps the length and shifts every entry by one."""
+    pp: the upper end only -- rho_par = -1 is an ordinary grid point).  Padding the other end keeps the length and shifts every entry by one.
+    Decided when the padding is written as a sequence construction (displays, concatenation, insert / append); other spellings (an
+    array filled slot by slot) are reported as not decided, without an alarm."""
     from ..flow import specialise
     S = chk.src
     ci = S.cls(cls_name)
@@ -673,30 +723,24 @@ def endpoint_padding_agrees(chk: Check, rule: str, cls_name: str = "grid:Grid", 
             raise AnchorMissing(f"{cls_name}.{gname} not found")
         chk.touch(fi.name)
         fn = specialise(fi.node, "endpoints", True)
-        import copy as _copy
-        f2 = _copy.copy(fi)
-        f2.node = fn
-        cx = Ctx(S, f2)
-        triples = [r.value for r in sorted((r for r in own_nodes(fn) if isinstance(r, ast.Return)), key=lambda r: r.lineno)
-                   if isinstance(r.value, ast.Tuple) and len(r.value.elts) == 3]
-        if not triples:
-            raise AnchorMissing(f"{cls_name}.{gname}: no `return a, b, c` with endpoints=True")
-        t = triples[0]
-        row = []
-        for el in t.elts:
-            v = el
-            if isinstance(el, ast.Name):
-                # the padded array may be assigned inside the endpoints branch: take the (single) definition
-                defs = [st.value for st in own_nodes(fn) if isinstance(st, ast.Assign) and len(st.targets) == 1 and isinstance(st.targets[0], ast.Name) and st.targets[0].id == el.id]
-                v = defs[0] if len(defs) == 1 else cx.resolve(el)
-            p = _padding(v)
-            row.append((p[0], p[2]) if p is not None else None)
-        pats[gname] = row
+        ev = _PadEval()
+        row = None
+        # straight-line prefix up to the first `return a, b, c`
+        for k, st in enumerate(fn.body):
+            if isinstance(st, ast.Return) and isinstance(st.value, ast.Tuple) and len(st.value.elts) == 3:
+                row = [ev.seq(el) for el in st.value.elts]
+                break
+            ev.run([st])
+        if row is None:
+            rets = [r for r in sorted((r for r in own_nodes(fn) if isinstance(r, ast.Return)), key=lambda r: r.lineno) if isinstance(r.value, ast.Tuple) and len(r.value.elts) == 3]
+            row = [ev.seq(el) for el in rets[0].value.elts] if rets else [None] * 3
+        pats[gname] = [None if p is None or p.count("arr") != 1 else (p.index("arr"), len(p) - p.index("arr") - 1) for p in row]
+    undecided = [g_ for g_ in getters if any(v is None for v in pats[g_])]
+    if undecided:
+        chk.note(f"{rule}: end-point padding of {undecided} is not written as a sequence construction; agreement of the padded ends not decided")
+        return
     for k, direction in enumerate(("z", "pz", "pp")):
         col = {gname: pats[gname][k] for gname in getters}
-        if any(v is None for v in col.values()):
-            from ..core import Undecided
-            raise Undecided(f"{cls_name}: end-point padding of direction {direction} not recognised in {[g_ for g_, v in col.items() if v is None]}")
         ok = len(set(col.values())) == 1
         chk.ob(rule, ci.methods[getters[-1]].where(), f"endpoints=True: direction {direction} is padded at the same ends (front, back) by all three getters", ok,
                str(col), key=f"padding|{direction}")
@@ -868,8 +912,10 @@ def imaginary_dispatch_strict(chk: Check, rule: str, cls_name: str = "PotentialT
             r = cx.resolve(t)
             if not any(isinstance(c, ast.Call) and (dotted(c.func) or "") in ("np.any", "any") for c in ast.walk(r)):
                 continue
-            if not any(g.reaches(g.branch(t, True), q) for q in readers):
-                continue
+            tb = any(g.reaches(g.branch(t, True), q, avoid=lambda x, t=t: x is t) for q in readers)
+            fb = any(g.reaches(g.branch(t, False), q, avoid=lambda x, t=t: x is t) for q in readers)
+            if tb == fb:
+                continue        # the test does not decide whether the dispatch is reached
             for c in ast.walk(r):
                 if isinstance(c, ast.Compare) and len(c.ops) == 1 and (eqx(c.comparators[0], "0") or eqx(c.left, "0")):
                     cmps.append(c)
